@@ -199,7 +199,7 @@ def gen_cases(rng, tier, shard, nshards):
     if shard == 0:
         yield {'fam': 'fixed'}
     # big publishes first (so that a budget cut never starves the boundary classes)
-    reps = 4 if quick else 40
+    reps = 4 if quick else 24
     idx = 0
     bigs = list(BIG_SIZES)
     if not quick:
@@ -214,7 +214,7 @@ def gen_cases(rng, tier, shard, nshards):
         # deliberately colliding chunks: two identical plaintext chunks under one repeated IV (logged class)
         yield {'fam': 'pub', 'size': 2 * CH, 'content': 'zeros', 'cseed': 1, 'key': 'rand16', 'kseed': 2, 'iv': 'const',
                'ivseed': 3, 'old_sort': False, 'name_kind': 'plain', 'name_hex': b'zeros.bin'.hex(), 'tamper': False}
-    nsmall = 60 if quick else 2500
+    nsmall = 60 if quick else 1000
     for j in range(nsmall):
         sub = rng.getrandbits(48)
         r = random.Random(sub)
@@ -225,7 +225,7 @@ def gen_cases(rng, tier, shard, nshards):
             yield {'fam': 'tamper', 'seed': rng.getrandbits(48), 'nblobs': [1, 2, 3, 3, 5, 8][(j // 3) % 6],
                    'style': ['sorted', 'old'][(j // 3) % 2]}
         if j % 6 == 0:
-            yield {'fam': 'names', 'seed': rng.getrandbits(48), 'count': 400 if quick else 3000}
+            yield {'fam': 'names', 'seed': rng.getrandbits(48), 'count': 400 if quick else 2000}
 
 
 def pub_case(r, size, j):
@@ -297,6 +297,10 @@ def shard_setup(rec, tier):
     rec.note('reference_selftest', f'NIST SP800-38A CBC-AES128/256, SHA-384("abc"), PKCS7 cases, {n} real sd blobs: ok')
 
 
+def shard_finish(rec, tier):
+    rec.log('shard_wall_s.%d-%d' % (int(rec.budget_s - rec.time_left()) // 60 * 60, int(rec.budget_s - rec.time_left()) // 60 * 60 + 60))
+
+
 def execute(rec, case):
     boot.import_lbry()
     fam = case['fam']
@@ -316,7 +320,7 @@ def execute(rec, case):
         loop = asyncio.new_event_loop()
         try:
             if fam == 'pub':
-                loop.run_until_complete(asyncio.wait_for(run_pub(rec, case, d), 120))
+                loop.run_until_complete(asyncio.wait_for(run_pub(rec, case, d), 300))
             elif fam == 'tamper':
                 loop.run_until_complete(asyncio.wait_for(run_tamper_synthetic(rec, case, d), 600))
             elif fam == 'fixed':
@@ -561,7 +565,7 @@ async def run_pub(rec, case, d):
                         except Exception as e:  # noqa
                             rec.violation(f'C02/R1/decrypt-raises/{path}/{type(e).__name__}',
                                           f'{path} raised {e!r} on blob {i} of a published {size}-byte file',
-                                          dict(info, index=i, blob_hash=b.blob_hash, iv=b.iv, key=loaded.key))
+                                          dict(info, index=i, blob_hash=b.blob_hash, iv_hex=b.iv, key_hex=loaded.key))
                             failed = True
                             break
                     if failed:
@@ -577,7 +581,7 @@ async def run_pub(rec, case, d):
                                       f'{path}: decrypting the {len(parts)} blobs of a published {size}-byte file gives {len(plain)} bytes, '
                                       f'first difference at offset {at}',
                                       dict(info, first_difference=at, got=plain[at:at + 32], expected=data[at:at + 32],
-                                           got_len=len(plain), key=loaded.key, ivs=[b.iv for b in loaded.blobs]))
+                                           got_len=len(plain), key_hex=loaded.key, ivs_hex=[b.iv for b in loaded.blobs]))
                         ok = False
             finally:
                 downloader.stop()
@@ -888,7 +892,7 @@ async def run_catalogue(rec, loop, d, base_doc, style, r, origin):
         rec.case(b't' + hashlib.sha256(raw).digest())
         verdict, reason, doc = ref.classify(raw)
         outcome, got = await load_bytes(loop, blob_dir, raw, via_writer=r.random() < 0.1)
-        kind = label.split('@')[0].split(':')[0]
+        kind = label.split('@')[0].split(':')[0] if not label.startswith('LOG:') else label[4:]
         if label.startswith('LOG:') or verdict != 'inconsistent':
             rec.log(f'R4.not_judged.{verdict}.{reason}.{kind}.{outcome}')
             if outcome == 'loaded':
